@@ -179,6 +179,8 @@ func c12HasNext(v bool, useNil bool) *bool {
 type c12Exec struct {
 	n      int // payloads
 	reject bool
+	yield  bool // producing a payload takes time: any other goroutine (a ticker's) may run before each one
+	inc    bool // incremental delivery shape: initial payload {"i":0}, then labelled payloads, hasNext true on all but the last
 	spaced bool // payload data carries insignificant white space incl. a line break (as graphql.MarshalAny / MarshalMap emit through json.Encoder)
 }
 
@@ -192,12 +194,21 @@ func (e *c12Exec) CreateOperationContext(ctx context.Context, params *graphql.Ra
 func (e *c12Exec) DispatchOperation(ctx context.Context, rc *graphql.OperationContext) (graphql.ResponseHandler, context.Context) {
 	k := 0
 	return func(ctx context.Context) *graphql.Response {
+		if e.yield {
+			zzsym.Preempt()
+		}
 		if k >= e.n {
 			return nil
 		}
 		k++
 		if !zzsym.Symbolic() {
 			time.Sleep(3 * time.Millisecond) // natively: give the 1ms keep-alive ticker a chance to fire between payloads
+		}
+		if e.inc {
+			if k == 1 {
+				return &graphql.Response{Data: json.RawMessage(`{"i":0}`), HasNext: c12Bool(e.n > 1)}
+			}
+			return &graphql.Response{Data: json.RawMessage(`{"d":` + string(rune('0'+k-1)) + `}`), Label: "L", HasNext: c12Bool(k < e.n)}
 		}
 		if e.spaced {
 			return &graphql.Response{Data: json.RawMessage(`{"k":` + string(rune('0'+k)) + `,"m":{"a":[1, 2]}` + "\n" + `}`)}
@@ -250,6 +261,7 @@ func Harness_C12_sse() {
 	keepAlive := zzsym.Choice("keepalive", 2) == 1
 	// (the framing of payload contents does not depend on the schedule: explored without the ticker)
 	ex.spaced = ex.n > 0 && !ex.reject && !keepAlive && zzsym.Choice("spaced", 2) == 1
+	ex.yield = keepAlive && zzsym.Param("yield", 0) == 1
 	w := &c12Writer{hdr: http.Header{}, preempt: keepAlive}
 	ctx, cancel := context.WithCancel(context.Background())
 	r := (&http.Request{Method: "POST", Header: http.Header{}, URL: &url.URL{Path: "/"}, Body: io.NopCloser(strings.NewReader(`{"query":"subscription { x }"}`))}).WithContext(ctx)
@@ -279,4 +291,56 @@ func Harness_C12_sse() {
 	}
 	zzsym.Assert(w.hdr.Get("Content-Type") == "text/event-stream", "the stream is served as text/event-stream")
 	zzsym.Reach("c12.sse")
+}
+
+// Harness_C12_multipartDo: MultipartMixed.Do as a whole - its aggregator
+// goroutine with the real ticker (a tick may be delivered at any scheduling
+// point), the response loop adding payloads, Done and the final flush - for
+// 1 + 0..2 [3] payloads or a rejected operation: the bytes are a well-formed
+// multipart/mixed stream delivering every payload exactly once and in order
+// with the closing boundary once and last, the response writer is never used
+// by two goroutines at once (race check; Write and Flush conflict), and the
+// ticker goroutine ends with the request.
+func Harness_C12_multipartDo() {
+	ex := &c12Exec{n: 1 + zzsym.Choice("incremental", zzsym.Param("maxinc", 2)+1), inc: true, yield: true, reject: zzsym.Choice("reject", 2) == 1}
+	w := &c12Writer{hdr: http.Header{}, preempt: true}
+	r := &http.Request{Method: "POST", Header: http.Header{}, URL: &url.URL{Path: "/"}, Body: io.NopCloser(strings.NewReader(`{"query":"{ x ... @defer { y } }"}`))}
+	r.Header.Set("Content-Type", "application/json")
+	r.Header.Set("Accept", "multipart/mixed")
+	t := MultipartMixed{}
+	zzsym.Assert(t.Supports(r), "the request is a multipart/mixed request")
+	t.Do(w, r, ex)
+	zzsym.Assert(zzsym.Quiesce() == 0, "the aggregator's ticker goroutine ends with the request")
+	zzsym.Assert(!w.overlap, "the response writer is never entered by two goroutines at once")
+	if ex.reject {
+		zzsym.Assert(json.Valid([]byte(w.wire())), "a rejected operation is answered with one JSON document")
+		zzsym.Assert(w.hdr.Get("Content-Type") == "application/json", "a rejected operation is answered as application/json")
+		zzsym.Reach("c12.multipartdo.rejected")
+		return
+	}
+	parts, closed, ok := c12ParseMultipart(w.wire(), "-")
+	zzsym.Assert(ok, "the body is a well-formed multipart/mixed stream")
+	zzsym.Assert(closed, "the closing boundary appears exactly once, last")
+	seenInitial := 0
+	var seenInc []string
+	for _, p := range parts {
+		var v map[string]any
+		zzsym.Assert(json.Unmarshal([]byte(p), &v) == nil, "every part holds valid JSON")
+		if inc, isInc := v["incremental"].([]any); isInc {
+			zzsym.Assert(seenInitial == 1, "incremental parts follow the initial payload")
+			for _, e := range inc {
+				d, _ := json.Marshal(e.(map[string]any)["data"])
+				seenInc = append(seenInc, string(d))
+			}
+		} else {
+			seenInitial++
+		}
+	}
+	zzsym.Assert(seenInitial == 1, "the initial payload is delivered exactly once")
+	zzsym.Assert(len(seenInc) == ex.n-1, "every incremental payload is delivered exactly once")
+	for k := range seenInc {
+		zzsym.Assert(seenInc[k] == `{"d":`+string(rune('1'+k))+`}`, "incremental payloads are delivered in order")
+	}
+	zzsym.Assert(strings.HasPrefix(w.hdr.Get("Content-Type"), "multipart/mixed"), "the stream is served as multipart/mixed")
+	zzsym.Reach("c12.multipartdo")
 }
